@@ -4,6 +4,7 @@ import PPLV.Checked.ProofsPre
 import PPLV.Checked.ProofsSpec
 import PPLV.Checked.ProofsExt3
 import PPLV.Checked.ProofsConv
+import PPLV.Checked.ProofsFixedExt
 /-!
 # C11 — checked arithmetic reports true rounding relations; bounded builds never lie
 
@@ -326,7 +327,7 @@ theorem subMul_holds_partial {t : IntTy} {π : Policy} (c : Cfg t π) (dir : Dir
   obtain ⟨⟨⟨⟨x1, x2⟩, y1, y2⟩, z1, z2⟩, hp⟩ := hpre
   rw [same_iff] at hp
   simp only [IntOp.run, IntOp.exact, Exact.toQ_ofExt]
-  refine ok_toQ (subMulExt_ok_partial c.wf c.larger c.checkOverflow dir ⟨z1, z2⟩ ⟨x1, x2⟩ ⟨y1, y2⟩ hp ?_)
+  refine ok_toQ (subMulExt_ok_partial c.wf c.larger c.checkOverflow dir ⟨z1, z2⟩ ⟨x1, x2⟩ ⟨y1, y2⟩ hp (fun _ _ _ => ?_))
   cases hn : π.hasNan
   · cases hs : t.signed
     · exact Or.inr (Or.inl rfl)
@@ -372,7 +373,7 @@ theorem umod2exp_holds_partial {t : IntTy} {π : Policy} (c : Cfg t π) (dir : D
         · by_cases he : a.e + 1 = t.bits
           · exact absurd ⟨hs, hi, by omega, he⟩ hgood
           · exact Or.inr (Or.inr (Or.inr he))
-  have := ok_toQ (umod2expExt_ok_partial c.wf dir a.e ⟨z1, z2⟩ ⟨x1, x2⟩ hp side)
+  have := ok_toQ (umod2expExt_ok_partial c.wf dir a.e ⟨z1, z2⟩ ⟨x1, x2⟩ hp (fun _ => side))
   have e : (exactUmod (t.denote π a.x) a.e).toQ =
       Ext.map Int.cast (match t.denote π a.x with | .fin v => Ext.fin (v % pow2 a.e) | _ => Ext.nan) := by
     cases t.denote π a.x <;> simp [exactUmod, Exact.ofInt, Exact.toQ, Ext.map]
@@ -464,6 +465,61 @@ have produced a different answer (100 + 100 on `int8_t`) -/
 example : (runB .i8 .checkOverflowOnly .ignore [.mul 2 0 1, .addMul 2 0 0, .div 3 2 1] (fun i => if i = 0 then 7 else 3)).map
     (fun r => (r 2, r 3)) = some (70, 23) := by decide
 example : runB .i8 .checkOverflowOnly .ignore [.add 2 0 0] (fun _ => 100) = none := by decide
+
+/-! ## the repaired primitives (`fixes/fix_c11_*.diff`): the exclusions disappear
+
+`IntOp.runF fx` follows the repaired source for the switches of `fx` that are on (the harness measures
+them on the tree it is compiled against, the driver compares the library with `runF`);
+`IntOp.runF {} = IntOp.run` is the code as it is.  With KF-C11-1/2/3 repaired the three `_partial`
+theorems hold at full strength. -/
+
+theorem runF_unrepaired (t : IntTy) (π : Policy) (op : IntOp) (dir : Dir) (a : Operands) :
+    IntOp.runF {} t π op dir a = IntOp.run t π op dir a := IntOp.runF_default t π op dir a
+
+theorem div_holds_repaired {t : IntTy} {π : Policy} (c : Cfg t π) (fx : Fixes) (hfx : fx.div = true) (dir : Dir)
+    (a : Operands) (hpre : IntOp.pre t π .div a = true) :
+    OKQ t π dir (IntOp.runF fx t π .div dir a) (IntOp.exact t π .div a).toQ := by
+  simp only [IntOp.pre, Bool.and_eq_true, decide_eq_true_eq, Bool.or_eq_true, Bool.not_eq_true'] at hpre
+  obtain ⟨⟨⟨⟨⟨x1, x2⟩, y1, y2⟩, z1, z2⟩, hp2⟩, hp1⟩ := hpre
+  rw [finZero_iff] at hp2
+  rw [bothInf_iff] at hp1
+  simp only [IntOp.exact]
+  exact runF_div_okq c.wf c.larger c.checkOverflow fx hfx dir a ⟨z1, z2⟩ ⟨x1, x2⟩ ⟨y1, y2⟩ hp1 hp2
+
+example : IntOp.runF { div := true } .i8 .checkOverflowOnly .div .down { x := 7, y := -2 } = (-4, V_GT) := by decide
+example : IntOp.runF { div := true } .i8 .checkOverflowOnly .div .up { x := -7, y := -2 } = (4, V_LT) := by decide
+
+theorem subMul_holds_repaired {t : IntTy} {π : Policy} (c : Cfg t π) (fx : Fixes) (hfx : fx.subMul = true) (dir : Dir)
+    (a : Operands) (hpre : IntOp.pre t π .subMul a = true) :
+    OKQ t π dir (IntOp.runF fx t π .subMul dir a) (IntOp.exact t π .subMul a).toQ := by
+  simp only [IntOp.pre, Bool.and_eq_true, decide_eq_true_eq, Bool.or_eq_true, Bool.not_eq_true'] at hpre
+  obtain ⟨⟨⟨⟨x1, x2⟩, y1, y2⟩, z1, z2⟩, hp⟩ := hpre
+  rw [same_iff] at hp
+  simp only [IntOp.exact, Exact.toQ_ofExt]
+  exact ok_toQ (runF_subMul_ok c.wf c.larger c.checkOverflow fx hfx dir a ⟨z1, z2⟩ ⟨x1, x2⟩ ⟨y1, y2⟩ hp)
+
+example : IntOp.runF { subMul := true } .i8 .checkOverflowOnly .subMul .up { to0 := 0, x := 2, y := 64 } =
+    (0, V_UNKNOWN_POS_OVERFLOW) := by decide
+example : IntOp.runF { subMul := true } .i8 .extended .subMul .up { to0 := 0, x := 2, y := 64 } =
+    (-126, V_LT_INF) := by decide
+
+theorem umod2exp_holds_repaired {t : IntTy} {π : Policy} (c : Cfg t π) (fx : Fixes) (hfx : fx.umod = true) (dir : Dir)
+    (a : Operands) (hpre : IntOp.pre t π .umod2exp a = true) :
+    OKQ t π dir (IntOp.runF fx t π .umod2exp dir a) (IntOp.exact t π .umod2exp a).toQ := by
+  simp only [IntOp.pre, Bool.and_eq_true, decide_eq_true_eq, Bool.or_eq_true, Bool.not_eq_true'] at hpre
+  obtain ⟨⟨⟨x1, x2⟩, z1, z2⟩, hp⟩ := hpre
+  simp only [IntOp.exact]
+  have := ok_toQ (runF_umod_ok c.wf fx hfx dir a ⟨z1, z2⟩ ⟨x1, x2⟩ hp)
+  have e : (exactUmod (t.denote π a.x) a.e).toQ =
+      Ext.map Int.cast (match t.denote π a.x with | .fin v => Ext.fin (v % pow2 a.e) | _ => Ext.nan) := by
+    cases t.denote π a.x <;> simp [exactUmod, Exact.ofInt, Exact.toQ, Ext.map]
+  rw [e]
+  exact this
+
+example : IntOp.runF { umod := true } .i8 .extended .umod2exp .down { x := -1, e := 7 } = (126, V_GT_SUP) := by decide
+
+/-- with KF-C11-4 repaired the model of `sqrt` is right on the witness (no theorem for `sqrt`) -/
+example : IntOp.runF { isqrt := true } .i8 .checkOverflowOnly .sqrt .up { x := 64 } = (8, V_EQ) := by decide
 
 /-! ## the checker that judges the real library's output decides the property clauses -/
 
